@@ -64,7 +64,8 @@ impl Tmpl {
     pub fn n_param_sets(self) -> usize {
         match self {
             Tmpl::RsReal | Tmpl::RsPerm => 1,
-            Tmpl::GaReal | Tmpl::De | Tmpl::Pso | Tmpl::Iwo | Tmpl::Fa | Tmpl::Bh | Tmpl::Cro | Tmpl::AntSystem => 4,
+            Tmpl::De => 6,
+            Tmpl::GaReal | Tmpl::Pso | Tmpl::Iwo | Tmpl::Fa | Tmpl::Bh | Tmpl::Cro | Tmpl::AntSystem => 4,
             _ => 3,
         }
     }
@@ -205,7 +206,8 @@ pub fn dispatch<V: TemplateVisitor>(case: &Case, v: &mut V, on_ctor_error: &mut 
             go!(real_instance(inst), es::real_mu_plus_lambda_es::<Real, ()>(es::RealProblemParameters { population_size, lambda, deviation }, cond::<Real>(n, with_optimum)))
         }
         Tmpl::De => {
-            let sets = [(6u32, 1u32, 0.5, 0.5), (4, 1, 2.0, 0.0), (8, 2, 0.0, 1.0), (6, 2, 1.0, 0.9)];
+            // (2, 1) and (4, 2): population = 2y, the smallest population DEBest can draw 2y members from
+            let sets = [(6u32, 1u32, 0.5, 0.5), (4, 1, 2.0, 0.0), (8, 2, 0.0, 1.0), (6, 2, 1.0, 0.9), (2, 1, 0.8, 0.5), (4, 2, 0.5, 0.3)];
             let (population_size, y, f, pc) = sets[pset % sets.len()];
             meta.params = format!("population_size={population_size} y={y} f={f} pc={pc}");
             meta.instance = real_instance_desc(inst);
